@@ -31,9 +31,10 @@ theorem C11_discovered_change_not_up_to_date {P : Program} (hP : P.WF) {evs : Li
     · rename_i hc
       simp only [Bool.and_eq_true, beq_iff_eq, List.all_eq_true] at hc
       obtain ⟨⟨hst, hv⟩, hall⟩ := hc
-      obtain ⟨_, hb, hsig⟩ := hi.validOk k hst hv
+      obtain ⟨hvalid, hb, hsig⟩ := hi.validOk k hst hv
       have hnf : inflight s k = false := by simp [inflight, hst]
-      have hso : SigOf P k (s.mem.res k).sig := by
+      have hso : Reusable P k (s.mem.res k).sig := by
+        refine ⟨?_, s.env, _, hvalid⟩
         rw [hsig]; exact hi.sigAtOk k (hi.scanReg k hst)
       obtain ⟨hg, hf⟩ := hi.good k hb hnf
       have hgood := hg hso
